@@ -75,3 +75,10 @@ Example c17_monitor_rejects :
   trace_ok true [ERead 0; EDrop 0 0] = false /\
   trace_ok false [ERead 0; ERead 1; EStart 0 0; EEnd 0] = false.
 Proof. vm_compute. repeat split. Qed.
+
+(* the trace of seed C17-7 (one Message variable shared by all decoder workers: a call that overlaps another one sees
+   the other datagram): two datagrams read, both calls started, both calls end on the SECOND datagram -- rejected *)
+Example c17_shared_message_rejected :
+  trace_ok false [ERead 0; ERead 1; EStart 0 0; EStart 1 1; EEnd 1; EEnd 1] = false /\
+  trace_ok false [ERead 0; ERead 1; EStart 0 0; EStart 1 1; EEnd 0; EEnd 1] = true.
+Proof. vm_compute. split; reflexivity. Qed.
